@@ -47,10 +47,6 @@ func runC17Mono(c *Ctx) {
 	// SSA: every error emission in the validator's methods must not be controlled by isRef == false
 	n := 0
 	for _, fn := range p.Funcs {
-		recv := fn.Signature.Recv()
-		if recv == nil || pointeeName(recv.Type()) != "globValidator" {
-			continue
-		}
 		occ := map[string]int{}
 		eachInstr(fn, func(b *ssa.BasicBlock, _ int, in ssa.Instruction) {
 			call, ok := in.(ssa.CallInstruction)
@@ -72,23 +68,17 @@ func runC17Mono(c *Ctx) {
 			k := FuncName(fn) + "|" + g.Name()
 			occ[k]++
 			construct := fmt.Sprintf("%s#%d", k, occ[k])
-			pathOnly := false
-			for ifi, outcome := range controllingConds(b) {
-				cond := ifi.Cond
-				neg := false
-				if un, ok := cond.(*ssa.UnOp); ok && un.Op == token.NOT {
-					cond, neg = un.X, true
-				}
-				if ld, ok := cond.(*ssa.UnOp); ok && ld.Op == token.MUL {
-					if fa, ok := ld.X.(*ssa.FieldAddr); ok && fieldAddrName(fa) == "globValidator.isRef" {
-						if outcome == neg { // reached when isRef is false
-							pathOnly = true
-						}
-					}
+			pathOnly := isRefFalseControls(b)
+			via := ""
+			if !pathOnly {
+				// the emission sits in a helper: it is path-only when a call on the way to it is
+				if site := pathOnlyCallSite(p, fn, map[*ssa.Function]bool{}); site != nil {
+					pathOnly = true
+					via = " (through the call at " + p.Pos(site.Pos()) + ", which is only made for path filters)"
 				}
 			}
 			if pathOnly {
-				c.bad(construct, call.Pos(), "this error is only reported when the pattern is validated as a path filter: a pattern accepted as a ref filter could be rejected as a path filter")
+				c.bad(construct, call.Pos(), "this error is only reported when the pattern is validated as a path filter"+via+": a pattern accepted as a ref filter could be rejected as a path filter")
 			} else {
 				c.ok(construct, call.Pos(), "reported for both kinds, or for refs only")
 			}
@@ -122,9 +112,51 @@ func runC17Mono(c *Ctx) {
 	}
 }
 
+// isRefFalseControls: the block is only reached when globValidator.isRef was found false.
+func isRefFalseControls(b *ssa.BasicBlock) bool {
+	for ifi, outcome := range controllingConds(b) {
+		cond := ifi.Cond
+		neg := false
+		if un, ok := cond.(*ssa.UnOp); ok && un.Op == token.NOT {
+			cond, neg = un.X, true
+		}
+		if ld, ok := cond.(*ssa.UnOp); ok && ld.Op == token.MUL {
+			if fa, ok := ld.X.(*ssa.FieldAddr); ok && fieldAddrName(fa) == "globValidator.isRef" {
+				if outcome == neg { // reached when isRef is false
+					return true
+				}
+			}
+		}
+	}
+	return false
+}
+
+// pathOnlyCallSite: a call, on some chain of calls that ends in fn, that is only
+// made when isRef is false.
+func pathOnlyCallSite(p *Prog, fn *ssa.Function, seen map[*ssa.Function]bool) ssa.CallInstruction {
+	if seen[fn] {
+		return nil
+	}
+	seen[fn] = true
+	for _, e := range p.callersOf(fn) {
+		if e.Site == nil || e.Caller == nil || e.Caller.Func == nil {
+			continue
+		}
+		caller := e.Caller.Func
+		if isRefFalseControls(e.Site.Block()) {
+			return e.Site
+		}
+		if s := pathOnlyCallSite(p, caller, seen); s != nil {
+			return s
+		}
+	}
+	return nil
+}
+
 func runC17Arg(c *Ctx) {
 	p := c.P
 	info := p.info()
+	runC17ArgLast(c)
 	for name, d := range globDecls(p) {
 		occ := 0
 		var stack []ast.Node
@@ -433,6 +465,67 @@ func runC17Col(c *Ctx) {
 		c.ok("(*globValidator).error|column source", f.Pos(), "the column comes from scanner.Position.Column (characters), not from the byte offset")
 	} else {
 		c.bad("(*globValidator).error|column source", f.Pos(), "the error column is not taken from scanner.Position.Column: for non-ASCII patterns a byte offset lies outside the pattern")
+	}
+	// the callers have consumed the offending character, so the scanner stands one column behind it: the column stored
+	// in the error is Position.Column - 1 (or the constant fallback for patterns with line breaks)
+	var cols []ssa.Value
+	eachInstr(f, func(_ *ssa.BasicBlock, _ int, in ssa.Instruction) {
+		if st, ok := in.(*ssa.Store); ok {
+			if fa, ok := st.Addr.(*ssa.FieldAddr); ok && fieldAddrName(fa) == "InvalidGlobPattern.Column" {
+				cols = append(cols, st.Val)
+			}
+		}
+	})
+	construct := "(*globValidator).error|column of the consumed character"
+	if len(cols) == 0 {
+		c.bad(construct, f.Pos(), "no column is stored in the error")
+		return
+	}
+	var leaves []ssa.Value
+	seen := map[ssa.Value]bool{}
+	var expand func(v ssa.Value)
+	expand = func(v ssa.Value) {
+		if seen[v] {
+			return
+		}
+		seen[v] = true
+		if ph, ok := v.(*ssa.Phi); ok {
+			for _, e := range ph.Edges {
+				expand(e)
+			}
+			return
+		}
+		leaves = append(leaves, v)
+	}
+	for _, v := range cols {
+		expand(v)
+	}
+	wrong := ""
+	for _, v := range leaves {
+		l := linOf(v, 0)
+		syms := 0
+		okSym := true
+		for k, n := range l {
+			if k == "1" || n == 0 {
+				continue
+			}
+			syms++
+			if n != 1 || !strings.Contains(k, "Position.Column") {
+				okSym = false
+			}
+		}
+		switch {
+		case syms == 0:
+			// constant fallback
+		case syms == 1 && okSym && linConst(l) == -1:
+		default:
+			wrong = l.String()
+		}
+	}
+	if wrong == "" {
+		c.ok(construct, f.Pos(), "the column is the scanner column minus one: the column of the character consumed last")
+	} else {
+		c.bad(construct, f.Pos(), "the column stored is "+wrong+", not the scanner column minus one: the scanner stands behind the character the error is about, so the report is not at the offending character (past the end of the pattern for its last character)")
 	}
 }
 
